@@ -414,7 +414,7 @@ type c20ChildResult struct {
 	out       string
 }
 
-func c20RunChild(script string) c20ChildResult {
+func c20RunChild(script string, hardLimit time.Duration) c20ChildResult {
 	bin := os.Getenv("VERIF_BIN")
 	if bin == "" {
 		bin = os.Args[0]
@@ -433,7 +433,7 @@ func c20RunChild(script string) c20ChildResult {
 	select {
 	case <-done:
 		res.finished = true
-	case <-time.After(15 * time.Second):
+	case <-time.After(hardLimit):
 		_ = cmd.Process.Kill()
 		<-done
 	}
@@ -450,7 +450,14 @@ func runC20Timeout(s *kit.Session, c c20Case) *kit.Failure {
 	// process start-up (a few hundred ms of wall and CPU) is part of the measurement, hence the slack
 	const wallLimit, cpuLimit = 3 * time.Second, 2500 * time.Millisecond
 	for attempt := 0; attempt < 2; attempt++ {
-		r := c20RunChild(c.Script)
+		// the known tail-recursion overrun (interrupted on time, then many seconds of traceback
+		// construction, longer on a busy machine) must be told apart from a script that is never
+		// stopped: give it long enough to return
+		hardLimit := 15 * time.Second
+		if c.Shape == "tail-recursion" {
+			hardLimit = 120 * time.Second
+		}
+		r := c20RunChild(c.Script, hardLimit)
 		if strings.Contains(r.out, "harness-error") || (!r.finished && r.cpu == 0) {
 			return &kit.Failure{Cause: "harness", Msg: "child process failed: " + r.out}
 		}
@@ -640,15 +647,21 @@ func diffLines(a, b string) string {
 func TestC20(t *testing.T) {
 	s := kit.Open(t, "C20")
 	run := func(c c20Case) *kit.Failure { return runC20(t, s, c) }
+	hooks := func(c c20HookCase) *kit.Failure { return runC20Hooks(t, s, c) }
 	if rf := kit.Replay(t); rf != nil {
+		if rf.Kind == "hooksel" {
+			kit.DoReplay(s, t, rf, hooks)
+			return
+		}
 		kit.DoReplay(s, t, rf, run)
 		return
 	}
 	_ = os.Getenv
-	s.SetRule("scripts from two grammars run through luasandbox.RunScript: (a) escape expressions composed from environment accessors (getfenv at levels 0-3 / of functions, coroutine wrappers, pcall/xpcall/select/unpack laundering, setfenv juggling, nesting) x targets (every forbidden global and forbidden library member, names as literals or built by concatenation / char codes / case folding) x access forms (index, pairs scan, next scan, string methods via values, newproxy); each must evaluate to nil or raise; (b) attempts to modify library tables (new and existing members, via globals, via getfenv(0), via values, table.insert, loops) - the library tables must be unchanged afterwards; (c) scripts returning non-numbers => exit code 1; (d) non-terminating scripts (12 loop / recursion / coroutine / pcall shapes and 3 pattern blow-ups) with a 1 s timeout must return within 2.5 s (overruns re-run twice, otherwise inconclusive). After EVERY script a Go-side walk over everything reachable from the globals table, the thread environment and the built-in type metatables (tables, metatables, function environments, upvalues, prototype constants) classifies every Go function by code pointer against an unsandboxed reference state: forbidden primitives and unclassified Go functions are violations. Non-trivial: composed escape, mutation attempt or non-terminating script")
+	s.SetRule("scripts from two grammars run through luasandbox.RunScript: (a) escape expressions composed from environment accessors (getfenv at levels 0-3 / of functions, coroutine wrappers, pcall/xpcall/select/unpack laundering, setfenv juggling, nesting) x targets (every forbidden global and forbidden library member, names as literals or built by concatenation / char codes / case folding) x access forms (index, pairs scan, next scan, string methods via values, newproxy); each must evaluate to nil or raise; (b) attempts to modify library tables (new and existing members, via globals, via getfenv(0), via values, table.insert, loops) - the library tables must be unchanged afterwards; (c) scripts returning non-numbers => exit code 1; (d) non-terminating scripts (12 loop / recursion / coroutine / pcall shapes and 3 pattern blow-ups) with a 1 s timeout must return within 2.5 s (overruns re-run twice, otherwise inconclusive); (e) hook selection on a real repository through experimental/gittuf: sequences of AddHook / RemoveHook (one or two stages, assigned to subsets of 4 keys, distinct return codes), AddRootKey, ApplyPolicy, DiscardPolicy and InvokeHooksForStage for every key, against a model of the applied hook table: the hooks run are exactly the applied pre-commit hooks assigned to the invoking principal (never staged-only, other-stage or other principals' hooks). After EVERY script a Go-side walk over everything reachable from the globals table, the thread environment and the built-in type metatables (tables, metatables, function environments, upvalues, prototype constants) classifies every Go function by code pointer against an unsandboxed reference state: forbidden primitives and unclassified Go functions are violations. Non-trivial: composed escape, mutation attempt or non-terminating script")
 	kit.Campaign(s, t, "escape", "script", s.Budget(40_000, 1_500_000), genEscape, run)
 	kit.Campaign(s, t, "mutate", "script", s.Budget(8_000, 200_000), genMutate, run)
 	kit.Campaign(s, t, "return", "script", s.Budget(400, 4_000), genReturn, run)
+	kit.Campaign(s, t, "hooksel", "hooksel", s.Budget(48, 1_200), genC20Hooks, hooks)
 	// timeouts: every shape is run by some shard (enumeration), thorough repeats with variations
 	kit.Enumerate(s, t, "timeout", "script", func(i int) (c20Case, bool) {
 		all := append(append([]struct{ shape, script string }{}, c20Loops...), c20PatternBlowups...)
